@@ -1280,7 +1280,7 @@ def fs_op_str(op):
     if k in ('extend', 'fromiter', 'extendlazy'): return k + ' ' + gen.show(list(op[1]))
     if k == 'reserve': return 'reserve %x' % op[1]
     if k in ('withcap', 'mergecap'): return '%s %x' % (k, op[1])
-    if k == 'resregs': return 'resregs ' + gen.show(list(op[1]))
+    if k in ('resregs', 'resitems'): return k + ' ' + gen.show(list(op[1]))
     return k
 
 def fs_oracle(e, o, ops, obs, index_free=False, heap=False):
@@ -1649,6 +1649,48 @@ def c18(ctx):
     run_fs_cases(ctx, res, fscases, heap=True)
     return res
 
+def c17_flatstack(ctx, res):
+    """FlatStack's own pre-sizing: after reserve_items(batch) (from an empty and from a populated stack) and after
+    merge_capacity over k copies of the stack, copying exactly the announced items changes no capacity reported by
+    FlatStack::heap_size -- neither the region's nor the vector index storage's."""
+    cases = []
+    n = 6 if not ctx.thorough else 60
+    for name, (e, o) in FS_EXPR.items():
+        if o != 'vec' or coded(e) or not (caps(e)['reserve_items'] and catalogue.ref_ok(e)) or not VEC_BACKED(name, e): continue
+        for it in range(n):
+            vg = gen.ValueGen(ctx.rng, big=False); sh = shape(e)
+            pre = [vg.gen(sh) for _ in range(ctx.rng.choice([0, 0, 3, 20]))]
+            batch = [vg.gen(sh) for _ in range(ctx.rng.choice([1, 5, 30, 60]))]
+            if it % 2 == 0:
+                ops = [('copy', v) for v in pre] + [('resitems', batch), ('observe',)] + [('copy', v) for v in batch] + [('observe',)]
+            else:
+                k = ctx.rng.choice([1, 2])
+                ops = [('copy', v) for v in batch] + [('mergecap', k), ('observe',)] + [('copy', v) for v in batch] * k + [('observe',)]
+            cases.append((name, ops))
+    note_fs(res, cases)
+    hist = [(nm, [fs_op_str(o_) for o_ in ops]) for nm, ops in cases]
+    for prof in PROFILES:
+        impl = lib.run_impl('fs', hist, prof)
+        model = lib.run_model('fs', hist, prof, FS_NUMBERING)
+        for (name, ops), io, mo in zip(cases, impl, model):
+            res.evaluations += 1; res.compared += 1
+            res.per_entry[name] = res.per_entry.get(name, 0) + 1
+            e, o = FS_EXPR[name]
+            io = [g[0] if g else '' for g in io]
+            f = fs_oracle(e, o, ops, io)
+            if not f:
+                obs_at = [t for t, op in enumerate(ops) if op[0] == 'observe']
+                a = gen.parse(io[obs_at[0]]); b = gen.parse(io[obs_at[1]])
+                ca = list(a[10]) + list(a[8]); cb = list(b[10]) + list(b[8])
+                if ca != cb:
+                    what = 'reserve_items' if any(op[0] == 'resitems' for op in ops) else 'merge_capacity'
+                    f = (f'op {obs_at[1]}: capacities changed while copying exactly the contents announced to FlatStack::{what}: '
+                         f'{ca} -> {cb} (region capacities first, then the index storage)')
+            if f:
+                res.failures.append({'kind': 'oracle', 'entry': name, 'rust_type': f'FlatStack<{catalogue.rust_type(e)}, {o}>',
+                                     'profile': prof, 'history': [fs_op_str(x) for x in ops], 'what': f, 'observed': io, 'known': None})
+        res.per_profile[prof] = res.per_profile.get(prof, 0) + len(cases)
+
 # ================================================================== C17 allocation discipline
 VEC_BACKED = lambda nm, e: not (contains(e, 'col') or contains(e, 'con') or contains(e, 'cols') or coded(e)) and 'iopt' not in repr(e) and 'ilist' not in repr(e)
 
@@ -1721,6 +1763,7 @@ def c17(ctx):
     def oracle(e, ops, obs, mo=None):
         return ref_oracle(e, ops, obs, [clause], mo)
     if long_cases: run_impl_only(ctx, res, long_cases, oracle)
+    c17_flatstack(ctx, res)
     # correspondence: the reserved capacities cover what the model needs
     hist = [(nm, [op_str(o) for o in ops]) for nm, ops in cases]
     for prof in PROFILES:
